@@ -74,10 +74,16 @@ def meK2 : F64 := (Q.ofNat 2 + Q.ofNat 2 * qSqrt3 * Q.mk 1 3).toF64
 def meK3 : F64 := ((Q.ofNat 23 + Q.ofNat 16 * qSqrt3.inv) * qDblEpsilon).toF64
 /-- s1 package: `dblEpsilon = 2.220446049e-16` (a SHORTER decimal than the s2 constant) -/
 def qS1Eps : Q := ⟨2220446049, 10 ^ 25⟩
-/-- `4.5*dblEpsilon` of s1.MaxPointError -/
-def mpC1 : F64 := (Q.mk 45 10 * qS1Eps).toF64
-/-- `16*dblEpsilon*dblEpsilon` of s1.MaxPointError -/
-def mpC2 : F64 := (Q.ofNat 16 * qS1Eps * qS1Eps).toF64
+/-- `float64` value of s1's `dblEpsilon`.  It is a package-level VARIABLE (`var dblEpsilon = 2.220446049e-16`), so
+    arithmetic with it happens at run time in float64 (not in exact constant arithmetic). -/
+def s1EpsF : F64 := qS1Eps.toF64
+def f4p5 : F64 := ⟨0x4012000000000000⟩
+def f16 : F64 := ⟨0x4030000000000000⟩
+/-- `4.5*dblEpsilon` of s1.MaxPointError (run-time product) -/
+def mpC1 : F64 := f4p5 * s1EpsF
+/-- `16*dblEpsilon*dblEpsilon` of s1.MaxPointError (run-time products, left to right; one ulp above the exactly
+    rounded constant — found by the regenerated tie S2Proofs.Ties.C17_EdgeNum) -/
+def mpC2 : F64 := (f16 * s1EpsF) * s1EpsF
 
 /-! ### C16 : compareEdges, Intersection -/
 
@@ -300,8 +306,10 @@ def distanceFromSegmentChord (x a b : V3) : F64 := (updateMinDistance x a b fz t
 /-- `ChordAngle.MaxPointError` (s1 constants) -/
 def maxPointError (c : F64) : F64 := mpC1 * c + mpC2
 
-/-- `ChordAngle.Expanded(e)` for a non-special chord angle: clamp of `c + e` to `[0, 4]` -/
-def chordExpanded (c e : F64) : F64 := F64.fmax (F64.zero false) (F64.fmin f4 (c + e))
+/-- `ChordAngle.Expanded(e)`: a special chord angle (negative or +Inf) is returned unchanged, otherwise the clamp
+    of `c + e` to `[0, 4]` -/
+def chordExpanded (c e : F64) : F64 :=
+  if F64.lt c fz || (c.isInf && !c.signBit) then c else F64.fmax (F64.zero false) (F64.fmin f4 (c + e))
 
 /-- `UpdateMaxDistance` (the 90-degree test allows for the error of the endpoint distances: repair D41) -/
 def updateMaxDistance (x a b : V3) (maxDist : F64) : F64 × Bool :=
